@@ -127,6 +127,11 @@ def check(case, out):
         return
     out.nontrivial = multi and (hits_knot or len(nodes) >= 2)
     sub = "node==0" if F(0) in nodes else ("at-knot" if hits_knot else "new-knot")
+    if exc is not None and lib.refined_weight_vanishes(ref, newU, p):
+        if lib.snapshot(curve) != snap:
+            out.fail("atomicity", f"{klass};{sub}", f"insertion refused ({exc}) but the curve changed")
+        out.exclude("refined-control-weight-vanishes (no finite (P, w) representation)")
+        return
     if exc is not None:
         out.fail("valid-request-rejected", f"{klass};{sub}", f"knot_insert({case['container']} {lnodes}) on U={U}: ValueError {exc}")
         return
